@@ -85,9 +85,11 @@ def sequentialUnroll (c : Circuit) (n : Nat) (dPort qPort : Name) (ignore : List
   | (_, bb) :: _ =>
     if !bb.ins.contains dPort then .error .valueError else
     let insts := c.bbs.map (·.1)
-    let cs1 := cs0.remove ((bb.ins.filter (· != dPort)).flatMap (fun p => insts.map (fun b => b ++ "_" ++ p)))
+    -- ignored pins were deleted by strip_blackboxes, not exposed: a node that happens to be called like one of them is
+    -- not a pin and stays (fix K39)
+    let cs1 := cs0.remove ((bb.ins.filter (fun p => p != dPort && !ignore.contains p)).flatMap (fun p => insts.map (fun b => b ++ "_" ++ p)))
     if !bb.outs.contains qPort then .error .valueError else
-    let cs2 := cs1.remove ((bb.outs.filter (· != qPort)).flatMap (fun p => insts.map (fun b => b ++ "_" ++ p)))
+    let cs2 := cs1.remove ((bb.outs.filter (fun p => p != qPort && !ignore.contains p)).flatMap (fun p => insts.map (fun b => b ++ "_" ++ p)))
     (if cs2.nodes.any (fun p => p.2.ty.isNone) then .error .keyError else pure ()) >>= fun _ =>
     let stateIns := insts.map (fun b => b ++ "_" ++ qPort)
     let cs3 := if removeUnloaded then
